@@ -1,7 +1,7 @@
 #!/bin/bash
 # usage: tryneutral.sh <dir with patch.diff>... : applies each behaviour-preserving patch to a scratch copy,
 # checks build+suite, and lists every check that raises an alarm (each such line is a false alarm).
-export GOFLAGS=-mod=mod GOPROXY=off GOSUMDB=off GOTOOLCHAIN=local GOWORK=off
+export GOFLAGS="-mod=mod -trimpath" GOPROXY=off GOSUMDB=off GOTOOLCHAIN=local GOWORK=off
 for D in "$@"; do D=$(readlink -f "$D")
   S=$(mktemp -d /tmp/cvss-neut.XXXXXX)
   rsync -a --exclude .git /repo/ "$S/repo/"; mkdir -p "$S/verif/evidence"; cp /verif/known_findings.txt "$S/verif/"
